@@ -165,6 +165,9 @@ func runC17(ctx *Ctx) {
 	markups := c17Markups(ctx.thorough())
 	rep.Rule = fmt.Sprintf("exhaustive: %d URL families (query parameter, query parameter with a second parameter, path component 'page/N' and bare 'N', file-name suffix '-N.html' and '_N.html') x first page linked with / without the parameter x N in 2..%d x k in 1..N x %d pager markups (separator, wrapper, decoration of the current page, with/without Prev/Next or Previous/Next anchors); every cell is distinct and non-trivial (the expected answer has a next or a previous page)", len(fams), c17MaxN, len(markups))
 	pn := newCorr("pagenum")
+	ls := newCorr("linkscore")
+	defer ls.run(ctx)
+	cellNo := 0
 	for _, f := range fams {
 		for _, bare := range []bool{false, true} {
 			// the property's pager has links that ALL follow the pattern; a first page linked
@@ -197,6 +200,11 @@ func runC17(ctx *Ctx) {
 						}
 						page, _ := nurl.ParseRequestURI(pageURL)
 						replay := map[string]interface{}{"page_url": pageURL, "html": src, "family": f.Name, "first_page_bare": bare, "n": n, "k": k, "markup": m.String()}
+						cellNo++
+						if cellNo%16 == 3 && page != nil && ctx.Replay == "" {
+							// the per-anchor decisions of the prev/next finder on a sample of the cells
+							addLinkScoreCases(ls, rep, src, page, replay)
+						}
 						cell := map[string]string{"family": f.Name, "bare": b01(bare), "n": fmt.Sprint(n), "k": fmt.Sprint(k)}
 						sig := func(clause string) map[string]string {
 							s := map[string]string{"clause": clause}
